@@ -271,10 +271,16 @@ func (ex *Exec) cycMethod(st *PState, fn *ssa.Function, args []Value) (Value, bo
 		return ts.And(cs...)
 	}
 	switch fn.Name() {
-	case "Set":
+	case "Set", "FromAffine", "FromJacobian":
 		return set(L(1)), true
-	case "SetZero":
+	case "AddAssign", "AddMixed":
+		return set(ex.cycLin(L(0), 1, L(1), 1)), true
+	case "SubAssign":
+		return set(ex.cycLin(L(0), 1, L(1), -1)), true
+	case "SetZero", "SetInfinity", "setInfinity":
 		return set(ex.cycZero(n)), true
+	case "IsInfinity":
+		return eq(L(0), ex.cycZero(n)), true
 	case "SetOne":
 		return set(ex.cycScalar(n, rc(1))), true
 	case "SetUint64", "SetInt64":
